@@ -124,7 +124,15 @@ func (e *c10Env) snap() *c10Snap {
 		sort.Strings(keys)
 		for _, k := range keys {
 			g := s3x.Do(e.st.Handler, &s3x.Req{Method: "GET", Path: "/" + b + "/" + k})
-			obs := fmt.Sprintf("%d %s len=%s etag=%s meta=%s", g.Status, md5hex(g.Body), g.Header.Get("Content-Length"), g.Header.Get("ETag"), g.Header.Get("X-Amz-Meta-Init"))
+			// every header that is object metadata (not Last-Modified: the clock may tick)
+			var mh []string
+			for h, v := range g.Header {
+				if strings.HasPrefix(h, "X-Amz-") && h != "X-Amz-Id-2" && h != "X-Amz-Request-Id" || h == "Content-Type" || h == "Content-Encoding" || h == "Content-Disposition" {
+					mh = append(mh, h+"="+strings.Join(v, ","))
+				}
+			}
+			sort.Strings(mh)
+			obs := fmt.Sprintf("%d %s len=%s etag=%s meta=%s", g.Status, md5hex(g.Body), g.Header.Get("Content-Length"), g.Header.Get("ETag"), strings.Join(mh, ";"))
 			if g.Panic != "" {
 				obs = "panic " + g.PanicSite
 			}
@@ -191,9 +199,9 @@ func (e *c10Env) exec(op c10Op) *s3x.Resp {
 		x := "<Delete><Object><Key>" + xmlEsc(op.Key) + "</Key></Object></Delete>"
 		return s3x.Do(h, &s3x.Req{Method: "POST", Path: "/" + op.B, Query: s3x.Q("delete", s3x.Bare), Body: []byte(x)})
 	case "copy-to": // destination is the hostile key
-		return s3x.Do(h, &s3x.Req{Method: "PUT", Path: "/" + op.B + "/" + op.Key, Header: s3x.H("X-Amz-Copy-Source", "/bk0/a")})
+		return s3x.Do(h, &s3x.Req{Method: "PUT", Path: "/" + op.B + "/" + op.Key, Header: s3x.H("X-Amz-Copy-Source", "/bk0/a", "X-Amz-Meta-Init", "set by the copy request", "X-Amz-Meta-Copy", "c", "Content-Type", "text/x-copy")})
 	case "copy-from": // source is the hostile key, destination a fresh normal key
-		return s3x.Do(h, &s3x.Req{Method: "PUT", Path: "/" + op.B + "/copied", Header: s3x.H("X-Amz-Copy-Source", "/"+op.B+"/"+s3x.EscapeQuery(op.Key))})
+		return s3x.Do(h, &s3x.Req{Method: "PUT", Path: "/" + op.B + "/copied", Header: s3x.H("X-Amz-Copy-Source", "/"+op.B+"/"+s3x.EscapeQuery(op.Key), "X-Amz-Meta-Init", "set by the copy request", "X-Amz-Meta-Copy", "c", "Content-Type", "text/x-copy")})
 	case "complete":
 		r := s3x.Do(h, &s3x.Req{Method: "POST", Path: "/" + op.B + "/" + op.Key, Query: s3x.Q("uploads", s3x.Bare)})
 		var d s3x.InitiateDoc
